@@ -211,6 +211,9 @@ def _ser(x):
 
 
 def replay(data):
+    if isinstance(data, dict) and data.get('kind') == 'userdict':
+        from . import userdict
+        return userdict.replay(data)
     if isinstance(data, dict) and data.get('part') == 'api':
         from . import c14
         return c14.replay(data)
@@ -316,4 +319,6 @@ def check(rep):
     authoropts.check(rep, 'C07', ['bypass_author_approval', 'bypass_peer_approval', 'bypass_leader_approval', 'bypass_build_status', 'bypass_jira_check', 'bypass_incompatible_branch', 'bypass_commit_size'])
     from . import c14
     c14.eval_api_part(rep, 'C07')
+    from . import userdict
+    userdict.check(rep, 'C07')
 
